@@ -13,6 +13,9 @@ pub struct Case {
     pub hist: Hist,
     pub cache: CacheKind,
     pub par: ParKind,
+    /// publish calls issued from a spawned task instead of the root future
+    #[serde(default)]
+    pub spawned: bool,
 }
 
 async fn run_cfg<TC: Tcfg>(case: &Case) -> R {
@@ -25,7 +28,7 @@ async fn run_cfg<TC: Tcfg>(case: &Case) -> R {
     let (batches, _) = case.hist.resolve();
     let mut effective = 0u64;
     for (i, b) in batches.iter().enumerate() {
-        if publish_both::<TC, _>(&dir, &mut m, b, i).await? {
+        if publish_both_opt::<TC, _>(&dir, &mut m, b, i, case.spawned).await? {
             effective += 1;
         }
         ensure!(m.epoch == effective, "epoch-count", "step {i}: epoch {} != number of effective publishes {effective}", m.epoch);
@@ -50,6 +53,12 @@ pub fn check(case: &Case, ctx: &mut Ctx) -> R {
     if info.max_version >= 4 {
         ctx.class("version>=4");
     }
+    if case.spawned {
+        ctx.class("publish_from_spawned_task");
+    }
+    if case.hist.batches.iter().any(|b| b.ops.len() > 128) {
+        ctx.class("batch_with>128_entries");
+    }
     if case.hist.labels.iter().any(|l| l.is_empty()) {
         ctx.class("empty_label_in_pool");
     }
@@ -68,7 +77,12 @@ pub fn strategy(thorough: bool) -> impl Strategy<Value = Case> {
         prop_oneof![Just(CacheKind::None), Just(CacheKind::Default)],
         prop_oneof![Just(ParKind::Disabled), Just(ParKind::Default), Just(ParKind::Static(3))],
     )
-        .prop_map(|(hist, cache, par)| Case { hist, cache, par })
+        .prop_map(|(hist, cache, par)| Case { hist, cache, par, spawned: false })
+        .prop_flat_map(|c| (Just(c), any::<bool>()))
+        .prop_map(|(mut c, s)| {
+            c.spawned = s;
+            c
+        })
 }
 
 pub fn run(eng: &mut Engine) {
@@ -83,10 +97,20 @@ pub fn run(eng: &mut Engine) {
         check,
     );
     eng.prop_part(
+        "wide",
+        "histories with batches of 60-150 labels (first batch all new, later batches update a third of them), publish calls issued from the root future or from a spawned task, sequential / parallel insertion; same oracle; every case non-trivial; distinct by history",
+        eng.tier.pick(48, 600),
+        || (wide_hist_strategy(), prop_oneof![Just(CacheKind::None), Just(CacheKind::Default)], prop_oneof![Just(ParKind::Disabled), Just(ParKind::Default)], any::<bool>()).prop_map(|(hist, cache, par, spawned)| Case { hist, cache, par, spawned }),
+        |c: &Case, ctx: &mut Ctx| {
+            ctx.nontrivial(fp(&c.hist));
+            check(c, ctx)
+        },
+    );
+    eng.prop_part(
         "very_deep",
         "one label driven through 258-300 versions (and as many epochs): version / epoch encodings beyond one byte; same oracle; non-trivial = every case; distinct by history",
         eng.tier.pick(16, 160),
-        || (very_deep_hist_strategy(), prop_oneof![Just(CacheKind::None), Just(CacheKind::Default)], prop_oneof![Just(ParKind::Disabled), Just(ParKind::Default)]).prop_map(|(hist, cache, par)| Case { hist, cache, par }),
+        || (very_deep_hist_strategy(), prop_oneof![Just(CacheKind::None), Just(CacheKind::Default)], prop_oneof![Just(ParKind::Disabled), Just(ParKind::Default)]).prop_map(|(hist, cache, par)| Case { hist, cache, par, spawned: false }),
         |c: &Case, ctx: &mut Ctx| {
             ctx.nontrivial(fp(&c.hist));
             check(c, ctx)
